@@ -83,7 +83,7 @@ type Analyzer struct {
 	// the client has verified that both maps of one owner always hold the same key set.
 	PairedMaps map[string]string
 	PairedUsed int
-	nilCmp    map[int]int
+	nilCmp     map[int]int
 	// NoExternalImpl: for these interfaces only repo implementations are explored.
 	NoExternalImpl func(iface types.Type) bool
 	// Opaque selects repo functions that are not inlined (verified separately as entries).
@@ -98,6 +98,10 @@ type Analyzer struct {
 	rootStack       []*rootSet
 	// ExtraRoots: terms whose facts clients want to query at return states (kept by GC).
 	ExtraRoots []Term
+	// OnMapUpdate observes map stores (layout extraction of keyed items).
+	OnMapUpdate func(fn *ssa.Function, ins *ssa.MapUpdate, st *State, m, k, v Term)
+	// OnAppend observes append calls (dst slice, appended operand).
+	OnAppend func(fn *ssa.Function, site ssa.Instruction, st *State, dst *Slice, src Term)
 	// OnInlined observes every return of an inlined repo function.
 	OnInlined func(fn *ssa.Function, args []Term, val Term, st *State)
 	// OnWrite observes binary.PutUintN writes (layout extraction of encoders).
@@ -928,7 +932,7 @@ func (a *Analyzer) havocTerm(loc Loc, old Term, others ...Term) Term {
 	}
 	if t, ok := a.locTypes[loc]; ok {
 		u := a.unknownOf(t, "~"+loc.Path, nil)
-		if maybeNil && isPointerLike(t) {
+		if _, isSlice := t.Underlying().(*types.Slice); maybeNil && isPointerLike(t) && !isSlice {
 			// a location that holds nil on some path stays possibly-nil after generalisation
 			return &Unknown{ID: a.id(), Typ: t, Desc: "~" + prettyPath(loc.Path), Nilness: nilMaybe, Why: "location that holds nil on some path"}
 		}
